@@ -39,7 +39,7 @@ def one(name):
 
 names = [a for a in sys.argv[1:] if not a.startswith("--")] or sorted(os.listdir(f"{V}/{SD}"))
 names = [n for n in names if os.path.isdir(f"{V}/{SD}/{n}")]
-with ThreadPoolExecutor(5) as ex:
+with ThreadPoolExecutor(int(os.environ.get("SEED_THREADS", "5"))) as ex:
     for name, res in ex.map(one, names):
         pid = name.split("-")[0]
         own = res.get(pid, {})
